@@ -204,7 +204,7 @@ World::World(const WorldCfg &c) : cfg(c) {
     memset(heap, 0xEE, cfg.heap);
 #endif
     memset(&iface, 0, sizeof iface);
-    iface.error = cb_error;
+    iface.error = cfg.with_error_cb ? cb_error : nullptr;
     iface.write = cb_write;
     iface.control = cfg.with_control ? cb_control : nullptr;
     iface.flush = cb_flush;
@@ -237,6 +237,12 @@ int World::add_command(const std::string &pattern, Handler h) {
     table.push_back(c);
     handlers.push_back(std::move(h));
     return c.tag;
+}
+
+int World::add_null_command(const std::string &pattern) {
+    int tag = add_command(pattern, nullptr);
+    table.back().callback = nullptr;
+    return tag;
 }
 
 int World::add_lib_command(const std::string &pattern, scpi_command_callback_t cb) {
